@@ -64,6 +64,19 @@ def extra_ops(rng, mk):
     """Indexing, iteration, ravel/flatten/.T as pseudo-functions (name, poly -> result, idx -> result)."""
     s = catalogue._shape(rng, 1, 3)
     p = mk(s)
+    if len(s) >= 2 and rng.random() < 0.4:
+        # a view that is not C-contiguous (transposed / axes swapped): indexing must follow the strides
+        ax = list(range(len(s)))
+        rng.shuffle(ax)
+        view = rng.choice(["T", "transpose", "swapaxes"])
+        pre = {"T": (lambda a: a.T), "transpose": (lambda a: a.transpose(*ax)), "swapaxes": (lambda a: a.swapaxes(0, -1))}[view]
+        name, q, f, desc = extra_ops_on(rng, pre(p))
+        return name + ":view", p, (lambda a: f(pre(a))), f"{view}{tuple(ax) if view == 'transpose' else ''} then {desc}"
+    return extra_ops_on(rng, p)
+
+
+def extra_ops_on(rng, p):
+    s = tuple(p.shape)
     kind = rng.choice(["basic", "basic", "advanced", "bool", "iter", "ravel", "flatten", "T", "newaxis"])
     if kind == "basic":
         ix = []
@@ -221,9 +234,16 @@ def run(report, tier, seed):
                                            else repr(a.tolist() if isinstance(a, numpy.ndarray) else a))) for a in args]
                                         + [f"{k}={v!r}" for k, v in kw.items() if not isinstance(v, numpoly.ndpoly)])
                     fn_np, fn_npl = getattr(numpy, fname), getattr(numpoly, fname)
-                    use_np = rng.random() < 0.5 and fname != "full"     # numpy.full never dispatches on fill_value
-                    call_impl = (lambda: fn_np(*args, **kw)) if use_np else (lambda: fn_npl(*args, **kw))
-                    call_idx = lambda: fn_np(*iargs, **ikw)   # noqa: E731
+                    # every numpy callable registered for this numpoly function is a spelling (numpy.diagonal,
+                    # numpy.linalg.diagonal, ...): each must place the elements where IT places them on plain arrays
+                    registered = [k for k, v in numpoly.FUNCTION_COLLECTION.items() if v is fn_npl and callable(k)] or [fn_np]
+                    use_np = rng.random() < 0.6 and fname != "full"     # numpy.full never dispatches on fill_value
+                    fn_sp = rng.choice(registered) if use_np else None
+                    if fn_sp is not None and fn_sp is not fn_np:
+                        label = f"{fname}[{getattr(fn_sp, '__module__', '')}.{getattr(fn_sp, '__name__', fname)}]"
+                    call_impl = (lambda: fn_sp(*args, **kw)) if use_np else (lambda: fn_npl(*args, **kw))
+                    oracle_fn = fn_sp if use_np else fn_np
+                    call_idx = lambda: oracle_fn(*iargs, **ikw)   # noqa: E731
             except Exception:  # noqa: BLE001  (generator could not build a case)
                 continue
             dist[label] = dist.get(label, 0) + 1
